@@ -3,6 +3,7 @@ use std::sync::atomic::Ordering;
 use crate::streaming::partitions::partition::Partition;
 use crate::streaming::partitions::COMPONENT;
 use crate::streaming::segments::*;
+use crate::streaming::utils::file;
 use error_set::ErrContext;
 use iggy::error::IggyError;
 use iggy::utils::timestamp::IggyTimestamp;
@@ -70,9 +71,15 @@ impl Partition {
             self.messages_count.clone(),
         );
 
-        new_segment.persist().await.with_error_context(|error| {
+        if let Err(error) = new_segment.persist().await.with_error_context(|error| {
             format!("{COMPONENT} (error: {error}) - failed to persist new segment: {new_segment}",)
-        })?;
+        }) {
+            // A segment that could not be created completely must not leave files behind: the
+            // next start would load them as a (trailing) segment of this partition.
+            let _ = file::remove(&new_segment.log_path).await;
+            let _ = file::remove(&new_segment.index_path).await;
+            return Err(error);
+        }
         self.segments.push(new_segment);
         self.segments_count_of_parent_stream
             .fetch_add(1, Ordering::SeqCst);
